@@ -2,6 +2,7 @@ package verifsim
 
 import (
 	"fmt"
+	"path/filepath"
 	"time"
 )
 
@@ -14,19 +15,21 @@ func strictConcRuns(tier string) int {
 	if tier == "thorough" {
 		return 400
 	}
-	return 42
+	return 48
 }
 
 // "switch-fails": the origin delivers a good list, but the store cannot switch to it (the live store's Update returns an
 // error): the distribution point's CRL is still not in force
-var strictConcStates = []string{oDown, oStall, oHTTP500, oGarbage, oTrunc, oHTTP404, "switch-fails"}
+// "move-in-fails": the same one layer down (disk): the rename that moves the staged database into place fails through all
+// its retries, the way back to the previous (empty) database works
+var strictConcStates = []string{oDown, oStall, oHTTP500, oGarbage, oTrunc, oHTTP404, "switch-fails", "move-in-fails"}
 
 func runStrictConcurrent(h *Harness, j int) {
 	tp := h.Tape
 	sc := h.R.Scenario
 	backend := []string{"memory", "disk"}[j%2]
 	state := strictConcStates[(j/2)%len(strictConcStates)]
-	fetch := []string{"", "fetch_actively", "fetch_background"}[(j/14)%3]
+	fetch := []string{"", "fetch_actively", "fetch_background"}[(j/16)%3]
 	nh := 2 + tp.Int(4)
 	pre := Pick(tp, 0, 50, 200, 400)
 	h.S.pPre = uint64(pre) * (1 << 32) / 1000
@@ -85,8 +88,34 @@ func runStrictConcurrent(h *Harness, j int) {
 			})
 		}
 	}
+	if state == "move-in-fails" {
+		loc.State = oGood
+		if backend == "disk" {
+			aside := map[string]bool{} // where live databases were moved aside to: moving those back is the way back
+			h.Disk.OsFault = func(nn int, op string, paths []string, node string) error {
+				if op != "rename" || len(paths) != 2 {
+					return nil
+				}
+				src, dst := isTmpName(filepath.Base(paths[0])), isTmpName(filepath.Base(paths[1]))
+				switch {
+				case !src && dst:
+					aside[paths[1]] = true
+				case src && !dst && !aside[paths[0]]:
+					return ErrIO // every attempt to move a staged database into place fails while this phase lasts
+				}
+				return nil
+			}
+		} else {
+			loc.State = oDown // (no directories to move in memory: the cell degenerates to an unreachable origin)
+		}
+	}
 	a := start(nh, "fail")
 	wait(a)
+	if state == "move-in-fails" {
+		h.Settle(30 * time.Second)
+		h.Quiesce()
+		h.Disk.OsFault = nil
+	}
 	if ff != nil {
 		h.Settle(30 * time.Second)
 		h.Quiesce()
